@@ -1789,6 +1789,78 @@ func (w *World) checkLoadEach() *Violation {
 // checkUnloadedHandle (C07, C14): a handle that was constructed but never loaded can serve GetImmutable(v) reads; with the
 // index setting of the live configuration every answer must still equal the model (fast path guards must not depend on a
 // latest version this handle never discovered).
+// checkReplayFirstVersionOnNewHandle: a process that starts over from nothing (new handle, nothing loaded, same
+// initial-version configuration) and replays the writes of the FIRST version, which the store still holds: the commit
+// names an existing version with an identical root hash, so it must succeed without effect (C14).
+func (w *World) checkReplayFirstVersionOnNewHandle() *Violation {
+	if w.Backend == "level" || w.Base == 0 || w.LegacyOrig > 0 {
+		return nil
+	}
+	vs := w.Vers[w.Base]
+	if vs == nil || !vs.Logged {
+		return nil
+	}
+	// the recorded writes must rebuild the version from the empty tree (not the case for an imported first version)
+	var root *RNode
+	for _, o := range vs.Writes {
+		switch o.Kind {
+		case "set":
+			val := o.V
+			if val == nil {
+				val = []byte{}
+			}
+			root, _ = rset(root, o.K, val)
+		case "remove":
+			if r2, _, _, removed := rremove(root, o.K); removed {
+				root = r2
+			}
+		}
+	}
+	if !bytes.Equal(rhash(root, w.Base, true), rhash(vs.Root, 0, false)) {
+		return nil
+	}
+	opts := []iavl.Option{iavl.FlushThresholdOption(w.Cfg.Flush)}
+	if w.Cfg.InitVer > 0 && !w.Cfg.InitMethod {
+		opts = append(opts, iavl.InitialVersionOption(w.Cfg.InitVer))
+	}
+	tr := iavl.NewMutableTree(w.DB, 0, w.Cfg.SkipFast, iavl.NewNopLogger(), opts...)
+	if w.Cfg.InitVer > 0 && w.Cfg.InitMethod {
+		tr.SetInitialVersion(w.Cfg.InitVer)
+	}
+	if int64(w.Cfg.InitVer) != w.Base && !(w.Cfg.InitVer == 0 && w.Base == 1) {
+		return nil // (the store was started under another initial-version configuration than the handle has now)
+	}
+	before := w.rawDump()
+	for _, o := range vs.Writes {
+		switch o.Kind {
+		case "set":
+			val := o.V
+			if val == nil {
+				val = []byte{}
+			}
+			if _, err := tr.Set(cp(o.K), cp(val)); err != nil {
+				return w.viol("replayfirst.set", "new handle, replay of the first version: Set(%q): %v", o.K, err)
+			}
+		case "remove":
+			if _, _, err := tr.Remove(cp(o.K)); err != nil {
+				return w.viol("replayfirst.remove", "new handle, replay of the first version: Remove(%q): %v", o.K, err)
+			}
+		}
+	}
+	h, v, err := tr.SaveVersion()
+	if err != nil || v != w.Base || !bytes.Equal(h, rhash(vs.Root, 0, false)) {
+		return w.viol("replayfirst.save", "a new handle (nothing loaded) replays the writes of the first version %d, which exists with the identical root hash %x: SaveVersion = %x,%d,%v", w.Base, rhash(vs.Root, 0, false), h, v, err)
+	}
+	if !eqDump(before, w.rawDump()) {
+		return w.viol("replayfirst.effect", "the idempotent re-commit of the first version %d by a new handle changed the store", w.Base)
+	}
+	w.Labels["first_version_replayed_on_a_new_handle"] = true
+	if w.Cfg.InitVer > 1 {
+		w.Labels["first_version_replayed_on_a_new_handle_with_initial_version"] = true
+	}
+	return nil
+}
+
 func (w *World) checkUnloadedHandle() *Violation {
 	if w.Backend == "level" || w.Latest == 0 {
 		return nil
